@@ -1189,4 +1189,826 @@ theorem decBody_write (o : OutOpts) (sid : Nat) (t : Tree) (hwf : WF t = true) (
   exact ⟨_, rfl, rfl, hsd, body_tokensFirst o t hwf hok, consT_nums o t hwf, body_parentsResolve o t hwf,
     consT_childBelowParent o t hwf⟩
 
+/-! ### the tool's own reader rebuilds the tree -/
+
+/-- the word slot of a constituent is not content -/
+def stripW : Tree → Tree :=
+  Tree.mapFields (fun s f => match s with | .node _ _ => { f with word := none } | _ => f)
+
+theorem mapFieldsL_eq (g : Tree → Fields → Fields) : ∀ ks : List Tree, mapFieldsL g ks = ks.map (mapFields g)
+  | [] => rfl
+  | t :: ts => by simp [mapFieldsL, mapFieldsL_eq g ts]
+
+theorem stripW_leaf (n : Nat) (f : Fields) : stripW (leaf n f) = leaf n f := by
+  simp [stripW, mapFields]
+
+theorem stripW_node (f : Fields) (ks : List Tree) : stripW (node f ks) = node { f with word := none } (ks.map stripW) := by
+  simp only [stripW, mapFields, mapFieldsL_eq]
+
+theorem leafNums_stripW (x : Tree) : (stripW x).leafNums = x.leafNums := by
+  induction x using tree_ind with
+  | hl n f => rw [stripW_leaf]
+  | hn f ks ih =>
+    rw [stripW_node, leafNums_node, leafNums_node, List.flatMap_map]
+    exact flatMap_congr' _ _ ks ih
+
+/-- normal form used to compare what the reader delivers -/
+def nf (x : Tree) : Tree := sortKids (stripW x)
+
+theorem leftmost_nf (x : Tree) : leftmost (nf x) = leftmost x := by
+  unfold nf
+  rw [leftmost_sortKids]
+  exact leftmost_of_perm _ _ (by rw [leafNums_stripW])
+
+theorem leftmost_nf_carry (k : Tree) : leftmost (nf (carryExport {} k)) = leftmost k := by
+  rw [leftmost_nf]
+  exact leftmost_of_perm _ _ (by rw [leafNums_carryExport])
+
+theorem nf_node (f : Fields) (ks : List Tree) :
+    nf (node f ks) = node { f with word := none } (sortBy leftmost (ks.map nf)) := by
+  unfold nf
+  rw [stripW_node, sortKids_node, List.map_map]
+  rfl
+
+/-- the fields the reader parses from the line of the node at `p` -/
+def rentry (t : Tree) (p : Path) : ExpFields :=
+  { word := wordOf t p, lemma := DEFAULT_LEMMA, label := printedLabel {} (subAt t p), morph := (subAt t p).fields.morph.getD DEFAULT_MORPH, edge := (subAt t p).fields.edge.getD DEFAULT_EDGE, parent := numOf t p.dropLast }
+
+/-- the node table of the reader -/
+def nodesT (t : Tree) : List (Nat × ExpFields) :=
+  (tokPaths t).map (fun p => (numOf t p, rentry t p)) ++ (consPaths t).map (fun p => (numOf t p, rentry t p))
+
+def fieldsOf (e : ExpFields) : Fields :=
+  { label := e.label, word := some e.word, lemma := some e.lemma, morph := some e.morph, edge := some e.edge }
+
+theorem exportBuild_succ (nodes : List (Nat × ExpFields)) (fuel num : Nat) :
+    exportBuild nodes (fuel + 1) num =
+      if ((nodes.filter fun x => x.2.parent == num).map (·.1)).isEmpty then
+        some (.leaf num (match nodes.find? (·.1 == num) with
+          | some x => fieldsOf x.2
+          | none => { label := DEFAULT_ROOT, edge := some DEFAULT_EDGE }))
+      else (((nodes.filter fun x => x.2.parent == num).map (·.1)).mapM (exportBuild nodes fuel)).map fun ks =>
+        .node (match nodes.find? (·.1 == num) with
+          | some x => fieldsOf x.2
+          | none => { label := DEFAULT_ROOT, edge := some DEFAULT_EDGE }) (sortBy Tree.leftmost ks) := by
+  rw [exportBuild]
+  cases nodes.find? (·.1 == num) <;> rfl
+
+/-- the parent column selects the lines of the children (any record with a parent column) -/
+theorem parent_filter_gen {β : Type} (E : Path → β) (par : β → Nat) (t : Tree) (hpar : ∀ q, par (E q) = numOf t q.dropLast)
+    (hwf : WF t = true) (p : Path) (hc : isCons t p = true) (L : List Path) (hL : ∀ q ∈ L, q ∈ paths t ∧ q ≠ []) :
+    ((L.map fun q => (numOf t q, E q)).filter (fun x => par x.2 == numOf t p)).map (·.1) =
+      (L.filter (fun q => q.dropLast == p)).map (numOf t) := by
+  rw [List.filter_map, List.map_map]
+  have : L.filter ((fun x : Nat × β => par x.2 == numOf t p) ∘ fun q => (numOf t q, E q)) =
+      L.filter (fun q => q.dropLast == p) := by
+    apply List.filter_congr
+    intro q hq
+    obtain ⟨hq1, hq2⟩ := hL q hq
+    have hcq := isCons_dropLast t q hq1 hq2
+    show (par (E q) == numOf t p) = (q.dropLast == p)
+    rw [hpar]
+    by_cases h : q.dropLast = p
+    · rw [h, beq_self_eq_true, beq_self_eq_true]
+    · have : numOf t q.dropLast ≠ numOf t p := fun e => h (numOf_inj t _ _ (WF_root t hwf).1 hcq hc e)
+      rw [beq_eq_false_iff_ne.2 this, beq_eq_false_iff_ne.2 h]
+  rw [this]
+  apply List.map_congr_left
+  intro q _
+  rfl
+
+theorem kidNums_cons (t : Tree) (hwf : WF t = true) (p : Path) (hc : isCons t p = true) :
+    ((nodesT t).filter fun x => x.2.parent == numOf t p).map (·.1) = (kidPaths t p).map (numOf t) := by
+  unfold nodesT kidPaths
+  rw [List.filter_append, List.map_append,
+    parent_filter_gen (rentry t) (·.parent) t (fun _ => rfl) hwf p hc _ (fun q hq => (mem_tok_cons t q).1 (List.mem_append_left _ hq)),
+    parent_filter_gen (rentry t) (·.parent) t (fun _ => rfl) hwf p hc _ (fun q hq => (mem_tok_cons t q).1 (List.mem_append_right _ hq)),
+    List.filter_append, List.map_append]
+
+/-- no line names a token as its parent -/
+theorem kidNums_tok (t : Tree) (hwf : WF t = true) (hN : t.leafNums.length < 500)
+    (p : Path) (hp : p ∈ tokPaths t) :
+    ((nodesT t).filter fun x => x.2.parent == numOf t p).map (·.1) = [] := by
+  have hb := numOf_tok_bounds t p hwf hp
+  rw [List.map_eq_nil_iff, List.filter_eq_nil_iff]
+  intro x hx
+  unfold nodesT at hx
+  rw [← List.map_append] at hx
+  obtain ⟨q, hq, rfl⟩ := List.mem_map.1 hx
+  obtain ⟨hq1, hq2⟩ := (mem_tok_cons t q).1 hq
+  have hcq := isCons_dropLast t q hq1 hq2
+  show ¬ ((rentry t q).parent == numOf t p) = true
+  have e : (rentry t q).parent = numOf t q.dropLast := rfl
+  rw [e, beq_iff_eq]
+  by_cases h0 : q.dropLast = []
+  · rw [h0, numOf_root t (WF_root t hwf).1]; omega
+  · have := numOf_cons_range t _ hcq h0
+    omega
+
+theorem find_node_tok (t : Tree) (hwf : WF t = true) (p : Path) (hp : p ∈ tokPaths t) :
+    (nodesT t).find? (·.1 == numOf t p) = some (numOf t p, rentry t p) := by
+  unfold nodesT
+  rw [List.find?_append, find?_map_key (numOf t) (rentry t) _ p hp (fun q hq h => numOf_tok_inj t hwf p q hp hq h)]
+  rfl
+
+theorem find_node_cons (o : OutOpts) (t : Tree) (hwf : WF t = true) (hok : ExportOK o t = true) (hN : t.leafNums.length < 500)
+    (p : Path) (hp : p ∈ consPaths t) :
+    (nodesT t).find? (·.1 == numOf t p) = some (numOf t p, rentry t p) := by
+  have hb := numOf_cons_bounds o t p hwf hok hp
+  unfold nodesT
+  rw [List.find?_append, find?_map_key_none (numOf t) (rentry t) _ _ (fun q hq => by
+      have := numOf_tok_bounds t q hwf hq; omega),
+    find?_map_key (numOf t) (rentry t) _ p hp (fun q hq h =>
+      numOf_inj t q p (WF_root t hwf).1 (isCons_of_mem_consPaths t q hq) (isCons_of_mem_consPaths t p hp) h)]
+  rfl
+
+theorem find_node_root (o : OutOpts) (t : Tree) (hwf : WF t = true) (hok : ExportOK o t = true) :
+    (nodesT t).find? (·.1 == 0) = none := by
+  unfold nodesT
+  rw [List.find?_append, find?_map_key_none (numOf t) (rentry t) _ _ (fun q hq => by
+      have := numOf_tok_bounds t q hwf hq; omega),
+    find?_map_key_none (numOf t) (rentry t) _ _ (fun q hq => by
+      have := numOf_cons_bounds o t q hwf hok hq; omega)]
+  rfl
+
+theorem kidPaths_ne_nil (t : Tree) (hne : t.noEmpty = true) (p : Path) (f : Fields) (ks : List Tree) (hp : p ∈ paths t)
+    (hs : subAt t p = node f ks) : ((kidPaths t p).map (numOf t)).isEmpty = false := by
+  have hl := (kidPaths_perm t p f ks hp hs).length_eq
+  have hks : ks ≠ [] := by
+    have := noEmpty_subAt t p hne hp
+    rw [hs] at this
+    exact ((noEmpty_node_iff f ks).1 this).1
+  have : 0 < ks.length := List.length_pos_iff.2 hks
+  simp only [List.length_map, List.length_range] at hl
+  cases h : (kidPaths t p).map (numOf t) with
+  | nil => rw [List.map_eq_nil_iff] at h; rw [h] at hl; simp at hl; omega
+  | cons a r => rfl
+
+/-- the children of a constituent are rebuilt by the reader (given that every lower node is) -/
+theorem exportBuild_kids (t : Tree) (hwf : WF t = true) (fuel : Nat) (p : Path) (f : Fields) (ks : List Tree)
+    (hp : p ∈ paths t) (hs : subAt t p = node f ks)
+    (ih : ∀ q ∈ paths t, q ≠ [] → height (subAt t q) < fuel →
+      ∃ d, exportBuild (nodesT t) fuel (numOf t q) = some d ∧ nf d = nf (carryExport {} (subAt t q)))
+    (hh : height (subAt t p) ≤ fuel) :
+    ∃ ds, ((kidPaths t p).map (numOf t)).mapM (exportBuild (nodesT t) fuel) = some ds ∧
+      sortBy leftmost ((sortBy leftmost ds).map nf) = sortBy leftmost ((carryExportL {} ks).map nf) := by
+  rw [List.mapM_map]
+  obtain ⟨ds, hds, hmap⟩ := mapM_option_some (exportBuild (nodesT t) fuel ∘ numOf t) nf
+    (fun q => nf (carryExport {} (subAt t q))) (kidPaths t p) (by
+      intro q hq
+      obtain ⟨hq1, hq2, hq3⟩ := height_kid_lt t p f ks hp hs q hq
+      exact ih q hq1 hq2 (by omega))
+  refine ⟨ds, hds, ?_⟩
+  have hkeys := kids_leftmost_nodup t p f ks hwf hp hs
+  have h2 : sortBy leftmost (ds.map nf) = sortBy leftmost ((carryExportL {} ks).map nf) := by
+    rw [hmap, carryExportL_eq, List.map_map]
+    exact sortBy_kids_eq t p f ks hp hs _ (kidPaths_perm t p f ks hp hs) (nf ∘ carryExport {})
+      (fun k => leftmost_nf_carry k) hkeys
+  rw [← h2]
+  refine (sortBy_perm_eq leftmost _ _ ((sortBy_perm leftmost ds).map nf).symm ?_).symm
+  -- the keys of the rebuilt children are those of the stored children
+  have h3 : ((ds.map nf).map leftmost).Perm ((carryExportL {} ks).map nf |>.map leftmost) := by
+    have a := (sortBy_perm leftmost (ds.map nf)).map leftmost
+    have b := (sortBy_perm leftmost ((carryExportL {} ks).map nf)).map leftmost
+    rw [h2] at a
+    exact a.symm.trans b
+  refine h3.symm.nodup ?_
+  rw [carryExportL_eq, List.map_map, List.map_map]
+  have : ((leftmost ∘ nf) ∘ carryExport {}) = leftmost := funext (fun k => leftmost_nf_carry k)
+  rw [this]; exact hkeys
+
+theorem carry_leaf_eq (t : Tree) (p : Path) (n : Nat) (f : Fields) (hs : subAt t p = leaf n f) (hw : f.word.isSome = true) :
+    leaf n (fieldsOf (rentry t p)) = carryExport {} (leaf n f) := by
+  obtain ⟨w, hw⟩ := Option.isSome_iff_exists.1 hw
+  simp only [fieldsOf, rentry, wordOf, hs, carryExport, kids, fields, List.isEmpty_nil, if_true, hw, Option.getD_some]
+  rfl
+
+theorem carry_node_eq (t : Tree) (p : Path) (f : Fields) (ks : List Tree) (hs : subAt t p = node f ks) :
+    { fieldsOf (rentry t p) with word := none } = { (carryExport {} (node f ks)).fields with word := none } := by
+  simp only [fieldsOf, rentry, hs, carryExport, fields]
+  rfl
+
+/-- every non-root node is rebuilt by the reader from its number -/
+theorem exportBuild_sub (t : Tree) (hwf : WF t = true) (hok : ExportOK {} t = true) (hN : t.leafNums.length < 500) :
+    ∀ fuel, ∀ q ∈ paths t, q ≠ [] → height (subAt t q) < fuel →
+      ∃ d, exportBuild (nodesT t) fuel (numOf t q) = some d ∧ nf d = nf (carryExport {} (subAt t q)) := by
+  have hne := WF_noEmpty t hwf
+  intro fuel
+  induction fuel with
+  | zero => intro q _ _ h; omega
+  | succ fuel ih =>
+    intro q hq hq0 hh
+    cases hs : subAt t q with
+    | leaf n f =>
+      have hqt : q ∈ tokPaths t := (mem_tokPaths t q).2 ⟨hq, hq0, by rw [hs]; rfl⟩
+      rw [exportBuild_succ, kidNums_tok t hwf hN q hqt, find_node_tok t hwf q hqt]
+      refine ⟨_, rfl, ?_⟩
+      dsimp only
+      rw [numOf_leaf t q n f hq hs, carry_leaf_eq t q n f hs (word_isSome_of_ok {} t q n f hok hq hs)]
+    | node f ks =>
+      have hk : (subAt t q).kids.isEmpty = false := by
+        rw [kids_isEmpty_eq_isLeaf _ (noEmpty_subAt t q hne hq), hs]; rfl
+      have hqc : q ∈ consPaths t := (mem_consPaths t q).2 ⟨hq, hq0, hk⟩
+      have hc := isCons_of_mem_consPaths t q hqc
+      obtain ⟨ds, hds, hsort⟩ := exportBuild_kids t hwf fuel q f ks hq hs ih (by omega)
+      rw [exportBuild_succ, kidNums_cons t hwf q hc, find_node_cons {} t hwf hok hN q hqc, hds,
+        if_neg (by rw [kidPaths_ne_nil t hne q f ks hq hs]; simp)]
+      refine ⟨_, rfl, ?_⟩
+      dsimp only
+      rw [nf_node, hsort, carryExport, nf_node, carry_node_eq t q f ks hs]
+      rfl
+
+/-- the root is rebuilt by the reader -/
+theorem exportBuild_rootTree (t : Tree) (hwf : WF t = true) (hok : ExportOK {} t = true) (hN : t.leafNums.length < 500)
+    (fuel : Nat) (hf : height t ≤ fuel) :
+    ∃ d, exportBuild (nodesT t) (fuel + 1) 0 = some d ∧ nf d = nf (carryExportRoot {} t) := by
+  have hroot := (WF_root t hwf).1
+  have hne := WF_noEmpty t hwf
+  cases ht : t with
+  | leaf n f => rw [ht] at hwf; simp [WF, isLeaf] at hwf
+  | node f ks =>
+    rw [← ht]
+    have hs : subAt t [] = node f ks := by rw [subAt_nil, ht]
+    obtain ⟨ds, hds, hsort⟩ := exportBuild_kids t hwf fuel [] f ks (nil_mem_paths t) hs
+      (exportBuild_sub t hwf hok hN fuel) (by rw [subAt_nil]; exact hf)
+    have hk := kidNums_cons t hwf [] hroot
+    rw [numOf_root t hroot] at hk
+    rw [exportBuild_succ, hk, find_node_root {} t hwf hok, hds,
+      if_neg (by rw [kidPaths_ne_nil t hne [] f ks (nil_mem_paths t) hs]; simp)]
+    refine ⟨_, rfl, ?_⟩
+    dsimp only
+    rw [ht, carryExportRoot_node, nf_node, nf_node, hsort]
+
+/-! ### the reader on the lines of one sentence -/
+
+theorem splitWs_of_decExpLine_v3 (line : Str) (e : ExpNode) (h : decExpLine false line = some e) :
+    ∃ p, splitWs line = [e.word, e.label, e.morph, e.edge, p] ∧ strToNat? p = some e.parent := by
+  unfold decExpLine at h
+  split at h
+  · rename_i w l m ed p hs _
+    cases hp : strToNat? p with
+    | none => simp [hp] at h
+    | some pn =>
+      simp only [hp, Option.map_some, Option.some.injEq] at h
+      subst h
+      exact ⟨p, hs, hp⟩
+  · rename_i hf
+    cases hf
+  · cases h
+
+theorem pyIsDigit_of_strToNat {s : Str} {n : Nat} (h : strToNat? s = some n) : pyIsDigit s = true := by
+  unfold strToNat? at h
+  split at h
+  · assumption
+  · cases h
+
+theorem exportParseLine_of_split (o : InOpts) (hgf : o.gfSplit = false) (line w l m e p : Str) (pn : Nat)
+    (hs : splitWs line = [w, l, m, e, p]) (hp : strToNat? p = some pn) (hr : pn = 0 ∨ (500 ≤ pn ∧ pn < 1000)) :
+    exportParseLine o line = .ok { word := w, lemma := DEFAULT_LEMMA, label := l, morph := m, edge := e, parent := pn } := by
+  have hrange : (!((decide (500 ≤ pn) && decide (pn < 1000)) || pn == 0)) = false := by
+    rcases hr with rfl | ⟨h1, h2⟩ <;> simp [*]
+  unfold exportParseLine
+  simp only [hs]
+  have h4 : [w, l, m, e, p][4]? = some p := rfl
+  rw [h4]
+  simp only [pyIsDigit_of_strToNat hp, if_true, List.take_succ_cons, List.take_zero, List.drop_succ_cons, List.drop_zero,
+    List.cons_append, List.nil_append, hp, hrange, hgf, Bool.false_eq_true, if_false]
+
+/-- the reader parses the line of the node at `p` -/
+theorem parse_lineAt (t : Tree) (p : Path) (hwf : WF t = true) (hok : ExportOK {} t = true) (hp : p ∈ paths t) (hp0 : p ≠ [])
+    (h : decExpLine false (lineAt {} t p) = some (entry {} t p)) :
+    exportParseLine {} (lineAt {} t p) = .ok (rentry t p) := by
+  obtain ⟨pp, hs, hpp⟩ := splitWs_of_decExpLine_v3 _ _ h
+  have hc := isCons_dropLast t p hp hp0
+  have hr : (entry {} t p).parent = 0 ∨ (500 ≤ (entry {} t p).parent ∧ (entry {} t p).parent < 1000) := by
+    have e : (entry {} t p).parent = numOf t p.dropLast := rfl
+    rw [e]
+    by_cases h0 : p.dropLast = []
+    · left; rw [h0, numOf_root t (WF_root t hwf).1]
+    · right
+      have hm : p.dropLast ∈ consPaths t := by
+        have hp' := mem_paths_of_isCons t _ hc
+        rw [isCons_eq t _ hp'] at hc
+        exact (mem_consPaths t _).2 ⟨hp', h0, by simpa using hc⟩
+      exact numOf_cons_bounds {} t _ hwf hok hm
+  exact exportParseLine_of_split {} rfl _ _ _ _ _ _ _ hs hpp hr
+
+/-- the test the reader uses to tell constituent lines from token lines -/
+def rIsCons (w : Str) : Bool := w.length == 4 && w.head? == some '#' && pyIsDigit (w.drop 1)
+
+theorem rIsCons_of_some (w : Str) (n : Nat) (h : consNumber w = some n) :
+    rIsCons w = true ∧ (strToNat? (w.drop 1)).getD 0 = n := by
+  unfold consNumber at h
+  split at h
+  · rename_i d
+    split at h
+    · rename_i hd
+      simp only [beq_iff_eq] at hd
+      simp [rIsCons, hd, h, pyIsDigit_of_strToNat h]
+    · cases h
+  · cases h
+
+theorem rIsCons_of_none (w : Str) (h : consNumber w = none) : rIsCons w = false := by
+  cases hr : rIsCons w with
+  | false => rfl
+  | true =>
+    exfalso
+    unfold rIsCons at hr
+    simp only [Bool.and_eq_true, beq_iff_eq] at hr
+    obtain ⟨⟨h1, h2⟩, h3⟩ := hr
+    cases w with
+    | nil => simp at h2
+    | cons c d =>
+      simp only [List.head?_cons, Option.some.injEq] at h2
+      subst h2
+      simp only [List.drop_succ_cons, List.drop_zero] at h3
+      simp only [List.length_cons] at h1
+      have hd : d.length = 3 := by omega
+      simp [consNumber, hd, strToNat?, h3] at h
+
+/-- one step of the reader's numbering pass -/
+def rstep (acc : List (Nat × ExpFields) × Nat) (f : ExpFields) : List (Nat × ExpFields) × Nat :=
+  let isCons := f.word.length == 4 && f.word.head? == some '#' && pyIsDigit (f.word.drop 1)
+  let num := if isCons then (strToNat? (f.word.drop 1)).getD 0 else acc.2
+  (acc.1 ++ [(num, f)], if isCons then acc.2 else acc.2 + 1)
+
+theorem exportSentence_eq (o : InOpts) (lines : List Str) :
+    exportSentence o lines = (lines.mapM (exportParseLine o) >>= fun fs =>
+      if ((fs.foldl rstep ([], 1)).1).any (fun (n, _) => n > 999) then throw .valueError
+      else match exportBuild (fs.foldl rstep ([], 1)).1 ((fs.foldl rstep ([], 1)).1.length + 2) 0 with
+        | some t => pure t
+        | none => throw .other) := rfl
+
+theorem foldl_rstep_toks {ι : Type} (E : ι → ExpFields) (key : ι → Nat) : ∀ (A : List ι) (acc : List (Nat × ExpFields)) (k : Nat),
+    (∀ q ∈ A, rIsCons (E q).word = false) → A.map key = List.range' k A.length →
+    (A.map E).foldl rstep (acc, k) = (acc ++ A.map (fun q => (key q, E q)), k + A.length)
+  | [], acc, k, _, _ => by simp
+  | q :: A, acc, k, h, hk => by
+    have hf : ((E q).word.length == 4 && (E q).word.head? == some '#' && pyIsDigit ((E q).word.drop 1)) = false := h q (by simp)
+    simp only [List.map_cons, List.length_cons, List.range'_succ, List.cons.injEq] at hk
+    rw [List.map_cons, List.foldl_cons]
+    have : rstep (acc, k) (E q) = (acc ++ [(k, E q)], k + 1) := by
+      simp only [rstep, hf, Bool.false_eq_true, if_false]
+    rw [this, foldl_rstep_toks E key A _ (k + 1) (fun g hg => h g (by simp [hg])) hk.2]
+    simp only [List.map_cons, hk.1, List.append_assoc, List.cons_append, List.nil_append, List.length_cons]
+    congr 1; omega
+
+theorem foldl_rstep_cons {ι : Type} (E : ι → ExpFields) (key : ι → Nat) : ∀ (B : List ι) (acc : List (Nat × ExpFields)) (k : Nat),
+    (∀ q ∈ B, rIsCons (E q).word = true ∧ (strToNat? ((E q).word.drop 1)).getD 0 = key q) →
+    (B.map E).foldl rstep (acc, k) = (acc ++ B.map (fun q => (key q, E q)), k)
+  | [], acc, k, _ => by simp
+  | q :: B, acc, k, h => by
+    obtain ⟨h1, h2⟩ := h q (by simp)
+    have hf : ((E q).word.length == 4 && (E q).word.head? == some '#' && pyIsDigit ((E q).word.drop 1)) = true := h1
+    rw [List.map_cons, List.foldl_cons]
+    have : rstep (acc, k) (E q) = (acc ++ [(key q, E q)], k) := by
+      simp only [rstep, hf, if_true, h2]
+    rw [this, foldl_rstep_cons E key B _ k (fun g hg => h g (by simp [hg]))]
+    simp
+
+/-- the numbering pass of the reader yields the node table -/
+theorem foldl_rstep_nodes (t : Tree) (hwf : WF t = true) (hok : ExportOK {} t = true) :
+    (((tokPaths t ++ consPaths t).map (rentry t)).foldl rstep ([], 1)).1 = nodesT t := by
+  have hne := WF_noEmpty t hwf
+  rw [List.map_append, List.foldl_append,
+    foldl_rstep_toks (rentry t) (numOf t) (tokPaths t) [] 1 (fun q hq => rIsCons_of_none _ (consNumber_tok {} t q hne hok hq))
+      (by rw [tokPaths_nums t hwf, tokPaths_length t hwf]),
+    foldl_rstep_cons (rentry t) (numOf t) (consPaths t) _ _ (fun q hq => rIsCons_of_some _ _ (consNumber_cons {} t q hwf hok hq))]
+  rfl
+
+theorem nodesT_small (t : Tree) (hwf : WF t = true) (hok : ExportOK {} t = true) (hN : t.leafNums.length < 500) :
+    (nodesT t).any (fun (n, _) => n > 999) = false := by
+  rw [List.any_eq_false]
+  intro x hx
+  unfold nodesT at hx
+  rcases List.mem_append.1 hx with hx | hx
+  · obtain ⟨q, hq, rfl⟩ := List.mem_map.1 hx
+    have := numOf_tok_bounds t q hwf hq
+    simp; omega
+  · obtain ⟨q, hq, rfl⟩ := List.mem_map.1 hx
+    have := numOf_cons_bounds {} t q hwf hok hq
+    simp; omega
+
+theorem length_nodesT (t : Tree) : (nodesT t).length = (bodyOf {} t).length := by
+  simp [nodesT, bodyOf]
+
+/-- the reader on the body lines of a written sentence -/
+theorem exportSentence_write (t : Tree) (hwf : WF t = true) (hok : ExportOK {} t = true) (hN : t.leafNums.length < 500)
+    (hdec : ∀ p ∈ tokPaths t ++ consPaths t, decExpLine false (lineAt {} t p) = some (entry {} t p)) :
+    ∃ r, exportSentence {} ((tokPaths t ++ consPaths t).map (lineAt {} t)) = .ok r ∧ nf r = nf (carryExportRoot {} t) := by
+  have hparse : ((tokPaths t ++ consPaths t).map (lineAt {} t)).mapM (exportParseLine {}) =
+      .ok ((tokPaths t ++ consPaths t).map (rentry t)) := by
+    have : ∀ (L : List Path), (∀ p ∈ L, p ∈ tokPaths t ++ consPaths t) →
+        (L.map (lineAt {} t)).mapM (exportParseLine {}) = .ok (L.map (rentry t)) := by
+      intro L
+      induction L with
+      | nil => intro _; rfl
+      | cons p L ih =>
+        intro h
+        obtain ⟨hp1, hp2⟩ := (mem_tok_cons t p).1 (h p (by simp))
+        rw [List.map_cons, List.mapM_cons, parse_lineAt t p hwf hok hp1 hp2 (hdec p (h p (by simp))),
+          ih (fun q hq => h q (by simp [hq]))]
+        rfl
+    exact this _ (fun p hp => hp)
+  obtain ⟨d, hd, hnf⟩ := exportBuild_rootTree t hwf hok hN ((nodesT t).length + 1) (by
+    rw [length_nodesT]; exact height_le_body {} t)
+  refine ⟨d, ?_, hnf⟩
+  rw [exportSentence_eq, hparse]
+  show (if ((((tokPaths t ++ consPaths t).map (rentry t)).foldl rstep ([], 1)).1).any (fun (n, _) => n > 999) then throw Err.valueError
+      else match exportBuild (((tokPaths t ++ consPaths t).map (rentry t)).foldl rstep ([], 1)).1
+          ((((tokPaths t ++ consPaths t).map (rentry t)).foldl rstep ([], 1)).1.length + 2) 0 with
+        | some t => pure t
+        | none => throw Err.other) = Except.ok d
+  rw [foldl_rstep_nodes t hwf hok, nodesT_small t hwf hok hN, hd]
+  rfl
+
+/-! ### the text of a sentence, split into lines again -/
+
+theorem splitOnChar_ne_nil (c : Char) : ∀ s : Str, splitOnChar c s ≠ []
+  | [] => by simp [splitOnChar]
+  | x :: xs => by
+    rw [splitOnChar]
+    split
+    · simp
+    · split <;> simp
+
+theorem splitOnChar_append (c : Char) : ∀ (a rest : Str), c ∉ a → splitOnChar c (a ++ c :: rest) = a :: splitOnChar c rest
+  | [], rest, _ => by simp [splitOnChar]
+  | x :: a, rest, h => by
+    have hx : x ≠ c := fun e => h (by simp [e])
+    have ih := splitOnChar_append c a rest (fun hc => h (by simp [hc]))
+    rw [List.cons_append, splitOnChar, if_neg hx, ih]
+
+theorem splitOnChar_lines : ∀ (ls : List Str), (∀ l ∈ ls, '\n' ∉ l) →
+    splitOnChar '\n' ((ls.map (· ++ ['\n'])).flatten) = ls ++ [[]]
+  | [], _ => by simp [splitOnChar]
+  | l :: ls, h => by
+    rw [List.map_cons, List.flatten_cons, List.append_assoc, List.singleton_append,
+      splitOnChar_append '\n' l _ (h l (by simp)), splitOnChar_lines ls (fun x hx => h x (by simp [hx]))]
+    rfl
+
+/-! ### the reader's loop over the lines -/
+
+/-- `line.strip()` -/
+def strip (line : Str) : Str := ((line.dropWhile pyIsSpace).reverse.dropWhile pyIsSpace).reverse
+
+theorem strip_id (l : Str) (c : Char) (r : Str) (c' : Char) (r' : Str) (h1 : l = c :: r) (hc : pyIsSpace c = false)
+    (h2 : l = r' ++ [c']) (hc' : pyIsSpace c' = false) : strip l = l := by
+  unfold strip
+  have e1 : l.dropWhile pyIsSpace = l := by rw [h1, List.dropWhile_cons, if_neg (by simp [hc])]
+  rw [e1]
+  have e2 : l.reverse.dropWhile pyIsSpace = l.reverse := by
+    rw [h2, List.reverse_append, List.reverse_singleton, List.singleton_append, List.dropWhile_cons, if_neg (by simp [hc'])]
+  rw [e2, List.reverse_reverse]
+
+theorem strip_nil : strip [] = [] := rfl
+
+theorem exportLoop_nil (o : InOpts) (cur : Option (Nat × List Str)) (cnt : Nat) (acc : List (Nat × Tree)) :
+    exportLoop o [] cur cnt acc = .ok acc.reverse := by
+  rw [exportLoop]
+
+theorem exportLoop_skip (o : InOpts) (line : Str) (rest : List Str) (cnt : Nat) (acc : List (Nat × Tree))
+    (h : "#BOS".toList.isPrefixOf (strip line) = false) :
+    exportLoop o (line :: rest) none cnt acc = exportLoop o rest none cnt acc := by
+  rw [exportLoop]
+  show (if "#BOS".toList.isPrefixOf (strip line) = true then _ else _) = _
+  rw [if_neg (by rw [h]; exact Bool.false_ne_true)]
+
+theorem exportLoop_bos (o : InOpts) (line : Str) (rest : List Str) (cnt : Nat) (acc : List (Nat × Tree)) (id : Nat)
+    (h : "#BOS".toList.isPrefixOf (strip line) = true) (hid : (splitWs (strip line))[1]?.bind strToNat? = some id) :
+    exportLoop o (line :: rest) none cnt acc = exportLoop o rest (some (id, [])) cnt acc := by
+  rw [exportLoop]
+  show (if "#BOS".toList.isPrefixOf (strip line) = true then
+      (match (splitWs (strip line))[1]?.bind strToNat? with
+        | some id => exportLoop o rest (some (id, [])) cnt acc
+        | none => .error .valueError) else _) = _
+  rw [if_pos h, hid]
+
+theorem exportLoop_body (o : InOpts) (line : Str) (rest : List Str) (cnt : Nat) (acc : List (Nat × Tree)) (id : Nat)
+    (body : List Str) (h : "#EOS".toList.isPrefixOf (strip line) = false) :
+    exportLoop o (line :: rest) (some (id, body)) cnt acc = exportLoop o rest (some (id, strip line :: body)) cnt acc := by
+  rw [exportLoop]
+  show (if "#EOS".toList.isPrefixOf (strip line) = true then _ else _) = _
+  rw [if_neg (by rw [h]; exact Bool.false_ne_true)]
+  rfl
+
+theorem exportLoop_eos (o : InOpts) (line : Str) (rest : List Str) (cnt : Nat) (acc : List (Nat × Tree)) (id : Nat)
+    (body : List Str) (t : Tree) (h : "#EOS".toList.isPrefixOf (strip line) = true)
+    (ht : exportSentence o body.reverse = .ok t) :
+    exportLoop o (line :: rest) (some (id, body)) cnt acc =
+      exportLoop o rest none (cnt + 1) ((if o.continuous then cnt else id, if o.replaceParens then replaceParensTree t else t) :: acc) := by
+  rw [exportLoop]
+  show (if "#EOS".toList.isPrefixOf (strip line) = true then
+      (match exportSentence o body.reverse with
+        | Except.error e => Except.error e
+        | Except.ok t => exportLoop o rest none (cnt + 1) ((if o.continuous then cnt else id, if o.replaceParens then replaceParensTree t else t) :: acc))
+      else _) = _
+  rw [if_pos h, ht]
+
+/-- the body lines are collected (in reverse) -/
+theorem exportLoop_collect (o : InOpts) (cnt : Nat) (acc : List (Nat × Tree)) (id : Nat) : ∀ (lines rest body : List Str),
+    (∀ l ∈ lines, strip l = l ∧ "#EOS".toList.isPrefixOf l = false) →
+    exportLoop o (lines ++ rest) (some (id, body)) cnt acc = exportLoop o rest (some (id, lines.reverse ++ body)) cnt acc
+  | [], rest, body, _ => rfl
+  | l :: lines, rest, body, h => by
+    obtain ⟨h1, h2⟩ := h l (by simp)
+    rw [List.cons_append, exportLoop_body o l _ cnt acc id body (by rw [h1]; exact h2), h1,
+      exportLoop_collect o cnt acc id lines rest (l :: body) (fun x hx => h x (by simp [hx]))]
+    simp
+
+/-! ### the characters of a line -/
+
+theorem exportTabs_all (n : Nat) : ∀ c ∈ exportTabs n, c = '\t' := by
+  unfold exportTabs
+  split
+  · simp
+  split <;> simp
+
+theorem exportTabs_eq_cons (n : Nat) : exportTabs n = '\t' :: (exportTabs n).tail := by
+  unfold exportTabs
+  split
+  · rfl
+  split <;> rfl
+
+theorem mem_tail_tabs (n : Nat) (c : Char) (h : c ∈ (exportTabs n).tail) : c = '\t' :=
+  exportTabs_all n c (List.mem_of_mem_tail h)
+
+/-- a written line: the word, a tab, fields and tabs, the parent number -/
+theorem exportLine_shape (o : OutOpts) (s : Tree) (w : Str) (pn : Nat) (l : Str) (h : exportLine o s w pn = .ok l) :
+    ∃ mid, l = w ++ '\t' :: (mid ++ natToStr pn) ∧
+      ∀ c ∈ mid, c = '\t' ∨ c ∈ printedLabel o s ∨ c ∈ s.fields.morph.getD DEFAULT_MORPH ∨
+        c ∈ s.fields.edge.getD DEFAULT_EDGE ∨ c ∈ s.fields.lemma.getD DEFAULT_LEMMA := by
+  unfold exportLine at h
+  obtain ⟨label, hl, h⟩ := bind_eq_ok _ _ _ h
+  rw [setFields_edge_eq] at hl
+  have hpl := printedLabel_of_ok o s label hl
+  cases h4 : o.exportFour with
+  | false =>
+    simp only [h4, Bool.not_false, if_true, pure, Except.pure, Except.ok.injEq] at h
+    subst h
+    refine ⟨(exportTabs w.length).tail ++ label ++ ['\t'] ++ s.fields.morph.getD DEFAULT_MORPH ++
+      exportTabs ((s.fields.morph.getD DEFAULT_MORPH).length + 8) ++ s.fields.edge.getD DEFAULT_EDGE ++ ['\t'], ?_, ?_⟩
+    · conv => lhs; rw [exportTabs_eq_cons w.length]
+      simp only [List.append_assoc, List.cons_append, List.nil_append]
+    · intro c hc
+      simp only [List.mem_append, List.mem_singleton] at hc
+      rcases hc with (((((hc | hc) | hc) | hc) | hc) | hc) | hc
+      · exact Or.inl (mem_tail_tabs _ c hc)
+      · exact Or.inr (Or.inl (hpl ▸ hc))
+      · exact Or.inl hc
+      · exact Or.inr (Or.inr (Or.inl hc))
+      · exact Or.inl (exportTabs_all _ c hc)
+      · exact Or.inr (Or.inr (Or.inr (Or.inl hc)))
+      · exact Or.inl hc
+  | true =>
+    simp only [h4, Bool.not_true, Bool.false_eq_true, if_false, pure, Except.pure, Except.ok.injEq] at h
+    subst h
+    refine ⟨(exportTabs w.length).tail ++ s.fields.lemma.getD DEFAULT_LEMMA ++ exportTabs (s.fields.lemma.getD DEFAULT_LEMMA).length ++
+      label ++ ['\t'] ++ s.fields.morph.getD DEFAULT_MORPH ++
+      exportTabs ((s.fields.morph.getD DEFAULT_MORPH).length + 8) ++ s.fields.edge.getD DEFAULT_EDGE ++ ['\t'], ?_, ?_⟩
+    · conv => lhs; rw [exportTabs_eq_cons w.length]
+      simp only [List.append_assoc, List.cons_append, List.nil_append]
+    · intro c hc
+      simp only [List.mem_append, List.mem_singleton] at hc
+      rcases hc with (((((((hc | hc) | hc) | hc) | hc) | hc) | hc) | hc) | hc
+      · exact Or.inl (mem_tail_tabs _ c hc)
+      · exact Or.inr (Or.inr (Or.inr (Or.inr hc)))
+      · exact Or.inl (exportTabs_all _ c hc)
+      · exact Or.inr (Or.inl (hpl ▸ hc))
+      · exact Or.inl hc
+      · exact Or.inr (Or.inr (Or.inl hc))
+      · exact Or.inl (exportTabs_all _ c hc)
+      · exact Or.inr (Or.inr (Or.inr (Or.inl hc)))
+      · exact Or.inl hc
+
+theorem natToStr_last (n : Nat) : ∃ r c, natToStr n = r ++ [c] ∧ pyIsSpace c = false := by
+  have hne := natToStr_ne_nil n
+  refine ⟨(natToStr n).dropLast, (natToStr n).getLast hne, (List.dropLast_concat_getLast hne).symm, ?_⟩
+  exact natToStr_noSpace n _ (List.getLast_mem hne)
+
+theorem isPrefixOf_before_tab : ∀ (k w rest : Str), '\t' ∉ k → k.isPrefixOf (w ++ '\t' :: rest) = true → k.isPrefixOf w = true
+  | [], w, _, _, _ => by simp [List.isPrefixOf]
+  | a :: k, [], rest, hk, h => by
+    simp only [List.nil_append, List.isPrefixOf, Bool.and_eq_true, beq_iff_eq] at h
+    exact absurd (by simp [h.1]) hk
+  | a :: k, b :: w, rest, hk, h => by
+    simp only [List.cons_append, List.isPrefixOf, Bool.and_eq_true] at h ⊢
+    exact ⟨h.1, isPrefixOf_before_tab k w rest (fun hc => hk (by simp [hc])) h.2⟩
+
+theorem eos_not_prefix_hash (n : Nat) : "#EOS".toList.isPrefixOf ('#' :: natToStr n) = false := by
+  rw [eos4_eq]
+  cases hd : natToStr n with
+  | nil => exact absurd hd (natToStr_ne_nil n)
+  | cons c r =>
+    have : c.isDigit = true := natToStr_isDigit n c (by rw [hd]; simp)
+    have hc : ('E' == c) = false := by
+      rw [beq_eq_false_iff_ne]; intro e; subst e; revert this; decide
+    simp [List.isPrefixOf, hc]
+
+/-- what the reader's loop needs to know about a body line -/
+theorem lineAt_loop_ok (t : Tree) (p : Path) (l : Str) (hne : t.noEmpty = true) (hok : ExportOK {} t = true)
+    (hp : p ∈ paths t) (h : exportLine {} (subAt t p) (wordOf t p) (numOf t p.dropLast) = .ok l)
+    (heos : "#EOS".toList.isPrefixOf (wordOf t p) = false) :
+    '\n' ∉ lineAt {} t p ∧ strip (lineAt {} t p) = lineAt {} t p ∧ "#EOS".toList.isPrefixOf (lineAt {} t p) = false := by
+  have hl : lineAt {} t p = l := lineOf_ok h
+  rw [hl]
+  obtain ⟨mid, rfl, hmid⟩ := exportLine_shape {} _ _ _ l h
+  have hs := ExportOK_sub {} t _ hok (mem_subtrees_subAt t p hp)
+  obtain ⟨hw1, hw2⟩ := wordOf_ok {} t p hne hok hp
+  have hmid' : ∀ c ∈ mid, c = '\t' ∨ pyIsSpace c = false := by
+    intro c hc
+    rcases hmid c hc with h | h | h | h | h
+    · exact Or.inl h
+    · exact Or.inr (((fieldOK_iff _).1 hs.1).2 c h)
+    · exact Or.inr (((fieldOK_iff _).1 hs.2.1).2 c h)
+    · exact Or.inr (((fieldOK_iff _).1 hs.2.2.1).2 c h)
+    · exact Or.inr (((fieldOK_iff _).1 hs.2.2.2.1).2 c h)
+  refine ⟨?_, ?_, ?_⟩
+  · intro hc
+    simp only [List.mem_append, List.mem_cons] at hc
+    rcases hc with hc | hc | hc | hc
+    · have := hw2 _ hc; revert this; decide
+    · revert hc; decide
+    · rcases hmid' _ hc with h | h
+      · revert h; decide
+      · revert h; decide
+    · have := natToStr_noSpace _ _ hc; revert this; decide
+  · obtain ⟨r', c', hr', hc'⟩ := natToStr_last (numOf t p.dropLast)
+    cases hw : wordOf t p with
+    | nil => exact absurd hw hw1
+    | cons c r =>
+      refine strip_id _ c (r ++ '\t' :: (mid ++ natToStr (numOf t p.dropLast))) c' (c :: r ++ '\t' :: (mid ++ r')) (by simp)
+        (hw2 c (by rw [hw]; simp)) (by rw [hr']; simp) hc'
+  · cases hpre : "#EOS".toList.isPrefixOf (wordOf t p ++ '\t' :: (mid ++ natToStr (numOf t p.dropLast))) with
+    | false => rfl
+    | true =>
+      have := isPrefixOf_before_tab _ _ _ (by rw [eos4_eq]; decide) hpre
+      rw [heos] at this; cases this
+
+/-! ### the reader on the text of one written sentence -/
+
+theorem frame_line_ok (tag : Str) (sid : Nat) (htag : tag = ['#','B','O','S',' '] ∨ tag = ['#','E','O','S',' ']) :
+    '\n' ∉ tag ++ natToStr sid ∧ strip (tag ++ natToStr sid) = tag ++ natToStr sid := by
+  obtain ⟨r', c', hr', hc'⟩ := natToStr_last sid
+  constructor
+  · intro hc
+    rcases List.mem_append.1 hc with hc | hc
+    · rcases htag with rfl | rfl <;> revert hc <;> decide
+    · have := natToStr_noSpace _ _ hc; revert this; decide
+  · rcases htag with rfl | rfl
+    · exact strip_id _ '#' (['B','O','S',' '] ++ natToStr sid) c' (['#','B','O','S',' '] ++ r') rfl (by decide)
+        (by rw [hr']; simp) hc'
+    · exact strip_id _ '#' (['E','O','S',' '] ++ natToStr sid) c' (['#','E','O','S',' '] ++ r') rfl (by decide)
+        (by rw [hr']; simp) hc'
+
+theorem bos_prefix (sid : Nat) : "#BOS".toList.isPrefixOf ("#BOS ".toList ++ natToStr sid) = true := by
+  rw [bos_eq, bos4_eq]; simp [List.isPrefixOf]
+
+theorem eos_prefix (sid : Nat) : "#EOS".toList.isPrefixOf ("#EOS ".toList ++ natToStr sid) = true := by
+  rw [eos_eq, eos4_eq]; simp [List.isPrefixOf]
+
+/-- the reader's loop on the text of one sentence whose body the sentence reader accepts -/
+theorem readExport_frame (sid : Nat) (body : List Str) (r : Tree)
+    (hbody : ∀ l ∈ body, '\n' ∉ l ∧ strip l = l ∧ "#EOS".toList.isPrefixOf l = false)
+    (hsent : exportSentence {} body = .ok r) :
+    readExport {} (((["#BOS ".toList ++ natToStr sid] ++ body ++ ["#EOS ".toList ++ natToStr sid]).map (· ++ ['\n'])).flatten) =
+      .ok [(sid, r)] := by
+  obtain ⟨hb1, hb2⟩ := frame_line_ok ("#BOS ".toList) sid (Or.inl bos_eq)
+  obtain ⟨he1, he2⟩ := frame_line_ok ("#EOS ".toList) sid (Or.inr eos_eq)
+  unfold readExport
+  rw [splitOnChar_lines _ (by
+    intro l hl
+    simp only [List.mem_append, List.mem_singleton] at hl
+    rcases hl with (rfl | hl) | rfl
+    · exact hb1
+    · exact (hbody l hl).1
+    · exact he1)]
+  rw [List.append_assoc, List.append_assoc, List.singleton_append,
+    exportLoop_bos {} _ _ 1 [] sid (by rw [hb2]; exact bos_prefix sid) (by
+      rw [hb2, splitWs_bos]
+      show (some (natToStr sid)).bind strToNat? = some sid
+      exact strToNat_natToStr sid),
+    exportLoop_collect {} 1 [] sid body _ [] (fun l hl => (hbody l hl).2),
+    List.singleton_append,
+    exportLoop_eos {} _ _ 1 [] sid _ r (by rw [he2]; exact eos_prefix sid) (by
+      rw [List.append_nil, List.reverse_reverse]; exact hsent),
+    exportLoop_skip {} [] [] _ _ (by rw [strip_nil, bos4_eq]; rfl), exportLoop_nil]
+  rfl
+
+/-! ### the writer succeeds on representable trees; the decoder fails on 500 tokens -/
+
+theorem mapM_ok_of_forall {ε α β : Type} (f : α → Except ε β) : ∀ (l : List α), (∀ a ∈ l, ∃ b, f a = .ok b) →
+    ∃ r, l.mapM f = .ok r
+  | [], _ => ⟨[], rfl⟩
+  | a :: l, h => by
+    obtain ⟨b, hb⟩ := h a (by simp)
+    obtain ⟨bs, hbs⟩ := mapM_ok_of_forall f l (fun x hx => h x (by simp [hx]))
+    exact ⟨b :: bs, by rw [List.mapM_cons, hb, hbs]; rfl⟩
+
+theorem ExportOK_label (o : OutOpts) (t s : Tree) (hok : ExportOK o t = true) (hs : s ∈ subtrees t) :
+    ∃ l, getLabel o (s.setFields fun f => { f with edge := some (f.edge.getD DEFAULT_EDGE) }) = .ok l := by
+  unfold ExportOK at hok
+  simp only [Bool.and_eq_true, List.all_eq_true] at hok
+  have := hok.2 s hs
+  split at this
+  · rename_i l hl; exact ⟨l, hl⟩
+  · cases this
+
+theorem exportLine_ok_of_label (o : OutOpts) (s : Tree) (w : Str) (pn : Nat) (l : Str)
+    (hl : getLabel o (s.setFields fun f => { f with edge := some (f.edge.getD DEFAULT_EDGE) }) = .ok l) :
+    ∃ line, exportLine o s w pn = .ok line := by
+  rw [← setFields_edge_eq] at hl
+  unfold exportLine
+  dsimp only
+  rw [hl]
+  cases o.exportFour <;> exact ⟨_, rfl⟩
+
+/-- the export writer succeeds on every tree the format can represent -/
+theorem writeExport_total (o : OutOpts) (sid : Nat) (t : Tree) (hok : ExportOK o t = true) :
+    ∃ ls, writeExport o sid t = .ok ls := by
+  rw [writeExport_unfold, nodesOf_eq]
+  have hline : ∀ x ∈ (nonRoot t).map (fun p => (p, subAt t p)), ∀ w pn, ∃ line, exportLine o x.2 w pn = .ok line := by
+    intro x hx w pn
+    obtain ⟨p, hp, rfl⟩ := List.mem_map.1 hx
+    obtain ⟨l, hl⟩ := ExportOK_label o t _ hok (mem_subtrees_subAt t p ((mem_nonRoot t p).1 hp).1)
+    exact exportLine_ok_of_label o _ w pn l hl
+  obtain ⟨terms, ht⟩ := mapM_ok_of_forall (termF o t) (((nonRoot t).map fun p => (p, subAt t p)).filter fun x => x.2.kids.isEmpty) (by
+    intro x hx
+    obtain ⟨line, hline⟩ := hline x (List.mem_filter.1 hx).1 (x.2.fields.word.getD []) (numOf t x.1.dropLast)
+    exact ⟨_, by unfold termF; rw [hline]; rfl⟩)
+  obtain ⟨nts, hn⟩ := mapM_ok_of_forall (ntF o t) (((nonRoot t).map fun p => (p, subAt t p)).filter fun x => !x.2.kids.isEmpty) (by
+    intro x hx
+    obtain ⟨line, hline⟩ := hline x (List.mem_filter.1 hx).1 ('#' :: natToStr (numOf t x.1)) (numOf t x.1.dropLast)
+    exact ⟨_, by unfold ntF; rw [hline]; rfl⟩)
+  rw [ht, hn]
+  exact ⟨_, rfl⟩
+
+theorem mapM_none_of_mem {α β : Type} (f : α → Option β) : ∀ (l : List α), (∃ a ∈ l, f a = none) → l.mapM f = none
+  | [], h => by obtain ⟨a, ha, _⟩ := h; simp at ha
+  | x :: l, h => by
+    rw [List.mapM_cons]
+    cases hx : f x with
+    | none => rfl
+    | some b =>
+      obtain ⟨a, ha, hfa⟩ := h
+      rcases List.mem_cons.1 ha with rfl | ha
+      · rw [hx] at hfa; cases hfa
+      · rw [mapM_none_of_mem f l ⟨a, ha, hfa⟩]; rfl
+
+theorem buildExp_nocons (toks : List (Nat × ExpNode)) (fuel num : Nat) (h : 500 ≤ num) : buildExp toks [] fuel num = none := by
+  cases fuel with
+  | zero => rw [buildExp]
+  | succ fuel =>
+    rw [buildExp]
+    have : (decide (num < 500) && num != 0) = false := by simp; omega
+    rw [if_neg (by simp [this])]
+    have h0 : (num == 0) = false := by simp; omega
+    simp only [h0, Bool.false_eq_true, if_false, List.find?_nil, Option.map_none]
+    split <;> rfl
+
+theorem buildExp_root_none (toks cons : List (Nat × ExpNode)) (fuel : Nat)
+    (h : ((toks.filter (·.2.parent == 0)).map (·.1) ++ (cons.filter (·.2.parent == 0)).map (·.1)).mapM
+      (buildExp toks cons fuel) = none) :
+    buildExp toks cons (fuel + 1) 0 = none := by
+  rw [buildExp]
+  simp only [h]
+  rfl
+
+/-- a sentence of 500 or more tokens directly below the root is written but not decoded -/
+theorem decBody_fails_flat (o : OutOpts) (sid : Nat) (t : Tree) (hwf : WF t = true) (hok : ExportOK o t = true)
+    (hflat : (t.subtrees.filter fun s => !s.isLeaf).length = 1) (hN : 500 ≤ t.leafNums.length) :
+    decBody sid (bodyOf o t) = none := by
+  have hroot := (WF_root t hwf).1
+  have hc : consPaths t = [] := by
+    have := consPaths_length t hwf
+    rw [hflat] at this
+    exact List.eq_nil_of_length_eq_zero (by omega)
+  have hcT : consT o t = [] := by unfold consT; rw [hc]; rfl
+  -- the token written with number 500
+  have h500 : 500 ∈ (tokPaths t).map (numOf t) := by
+    rw [tokPaths_nums t hwf, List.mem_range'_1]; omega
+  obtain ⟨q, hq, hq500⟩ := List.mem_map.1 h500
+  obtain ⟨hq1, hq2, _⟩ := (mem_tokPaths t q).1 hq
+  have hpar : (entry o t q).parent = 0 := by
+    show numOf t q.dropLast = 0
+    have hcq := isCons_dropLast t q hq1 hq2
+    by_cases h0 : q.dropLast = []
+    · rw [h0, numOf_root t hroot]
+    · exfalso
+      have hp' := mem_paths_of_isCons t _ hcq
+      rw [isCons_eq t _ hp'] at hcq
+      have : q.dropLast ∈ consPaths t := (mem_consPaths t _).2 ⟨hp', h0, by simpa using hcq⟩
+      rw [hc] at this; cases this
+  unfold decBody
+  simp only [body_toks o t hwf hok, body_cons o t hwf hok, hcT]
+  rw [buildExp_root_none]
+  · rfl
+  · apply mapM_none_of_mem
+    refine ⟨500, ?_, buildExp_nocons _ _ _ (Nat.le_refl _)⟩
+    rw [List.mem_append]; left
+    rw [List.mem_map]
+    refine ⟨(numOf t q, entry o t q), ?_, hq500⟩
+    rw [List.mem_filter]
+    exact ⟨List.mem_map_of_mem hq, by rw [hpar]; rfl⟩
+
 end TT.Lemmas.ExportRT
